@@ -71,12 +71,7 @@ def compute_dense_tile_occupancy(
 ):
     result = 1
     for index_expr in projection_expr.values():
-        subs = {
-            s: rank_variable_shapes[s.name] - 1
-            for s in index_expr.free_symbols
-            if s.name in rank_variable_shapes
-        }
-        result = result * ((index_expr.xreplace(subs) if subs else index_expr) + 1)
+        result = result * compute_rank_occupancy(index_expr, rank_variable_shapes)
     return result
 
 
@@ -86,7 +81,12 @@ def compute_rank_occupancy(projection_expr: sympy.Expr, rank_variable_shapes: di
         for s in projection_expr.free_symbols
         if s.name in rank_variable_shapes
     }
-    return (projection_expr.xreplace(subs) if subs else projection_expr) + 1
+    if not subs:
+        return 1
+    # Extent of the projection over the tile: last index minus first index plus one.
+    # A constant offset in the projection shifts the tile without enlarging it.
+    first = projection_expr.xreplace({s: 0 for s in subs})
+    return projection_expr.xreplace(subs) - first + 1
 
 
 def get_stride_and_halo_of_einsum(
